@@ -36,7 +36,7 @@ HANDLE = {1: (1000 << 32) | 1001, 2: (1000 << 32) | 1002, 3: (1000 << 32) | 1003
 HANDLE_IX = {v: k for k, v in HANDLE.items()}
 EPS = 0.001          # what HippoClientRegion._poll_event_queue sleeps between two polls
 STEP = 0.5           # what HippoClient._attempt_resends sleeps between two rounds
-PUMP_ROUNDS = 16
+PUMP_ROUNDS = 8
 
 
 def seed_url(a, k):
@@ -244,9 +244,11 @@ class Impl:
     # ---- plumbing ---------------------------------------------------------------------------
     def pump(self, rounds=PUMP_ROUNDS):
         """Run the loop until everything that is ready has run (every `await sleep(0)` is one loop iteration; the longest
-        chain in this area -- ack -> connect() resumes -> seed fetch -> event queue task starts -> poll registered, or
-        timeout -> connect() raises -> wait_for -> teleport future -- is shorter than PUMP_ROUNDS iterations)."""
-        self.loop.run_until_complete(_spin(rounds))
+        chain in this area -- ack -> connect() resumes -> seed fetch -> event queue task starts -> poll registered ->
+        wait_for returns -> teleport future, or event queue answer -> connect task starts -> teleport coroutine resumes --
+        is 4 iterations)."""
+        if rounds:
+            self.loop.run_until_complete(_spin(rounds))
 
     def _advance(self, seconds, wall=True, rounds=PUMP_ROUNDS):
         self.loop._vt += seconds
@@ -279,7 +281,7 @@ class Impl:
         self.eq_id = getattr(self, "eq_id", 0) + 1
         polls[0].set_result(im.llsd.format_xml({"id": self.eq_id, "events": [ev]}))
         self.pump()
-        self._advance(EPS, wall=False)      # the poller sleeps 1 ms before it asks again
+        self._advance(EPS, wall=False, rounds=0)      # the poller sleeps 1 ms before it asks again (the step's own pump follows)
         return None
 
     def _announce(self, kind, a, k):
@@ -675,7 +677,7 @@ def _witnesses(graphs):
     return w
 
 
-def section(chk: Check, deeper: int = 0, seeds: int = 1, max_n: int = 1, cap_pairs: int = 500, only=None, bugs=None):
+def section(chk: Check, deeper: int = 0, seeds: int = 1, max_n: int = 1, cap_pairs: int = 300, only=None, bugs=None):
     """deeper: added to the base depth of every bounded model; seeds: seed capability generations a simulator may announce;
     max_n: single clock ticks per outstanding message; cap_pairs: merge pairs replayed per model."""
     _imports()          # before forking: the workers share the imported implementation
